@@ -217,6 +217,16 @@ def gen_system(rng, am, i, natoms=None, with_units=False, uc=None):
     int/float/str/bool dtype and rank 1-3.  Returns (system, description dict of the ground truth)."""
     kind = cells.KINDS[i % len(cells.KINDS)]
     cell = cells.gen_cell(rng, kind, cells.ORIGINS[(i // 9) % 3], 1.0)
+    # handedness: a Box accepts left-handed vector sets (third vector reversed, two vectors exchanged); box-scaled storage
+    # goes through the reciprocal vectors, whose sign follows the handedness
+    hand = ['right', 'right', 'left-c', 'right', 'left-swap'][(i // 2) % 5]
+    if hand != 'right':
+        v_ = np.array(cell['vects'], float)
+        if hand == 'left-c':
+            v_[2] = -v_[2]
+        else:
+            v_ = v_[[1, 0, 2]]
+        cell = dict(cell, vects=v_)
     if natoms is None:
         natoms = [1, 2, 3, 5, 9][(i // 3) % 5]
     ntypes = int(min(natoms, 1 + (i // 5) % 3))
@@ -257,7 +267,7 @@ def gen_system(rng, am, i, natoms=None, with_units=False, uc=None):
     system = am.System(atoms=atoms, box=box, pbc=pbc, symbols=symbols, masses=masses, safecopy=True)
     truth = dict(vects=cell['vects'].copy(), origin=cell['origin'].copy(), atype=atype.copy(), pos=pos.copy(), rel=rel,
                  props={k: np.array(v, copy=True) for k, v in props.items()}, symbols=symbols, masses=masses,
-                 pbc=pbc, natoms=natoms, kind=kind, L=cell['L'])
+                 pbc=pbc, natoms=natoms, kind=kind, L=cell['L'], hand=hand)
     return system, truth
 
 
@@ -444,6 +454,8 @@ def run_atoms_system(ctx, am, uc, DM):
                 rec.count('monitor:system-roundtrip')
                 if any(v == 'scaled' for v in pu.values()):
                     rec.count('class:scaled-property')
+                    if truth.get('hand', 'right') != 'right':
+                        rec.count('class:scaled-property:left-handed-cell')
                 if any(m_ is None for m_ in truth['masses']) and any(m_ is not None for m_ in truth['masses']):
                     rec.count('class:partial-masses')
                 if truth['masses'] and truth['masses'][0] is None and any(m_ is not None for m_ in truth['masses']):
@@ -470,7 +482,7 @@ def run_atoms_system(ctx, am, uc, DM):
         import shutil
         rec.context = None
         shutil.rmtree(tmpdir, ignore_errors=True)
-    for name, mn in (('monitor:system-roundtrip', 100), ('monitor:atoms-roundtrip', 50), ('class:scaled-property', 10),
+    for name, mn in (('monitor:system-roundtrip', 100), ('monitor:atoms-roundtrip', 50), ('class:scaled-property', 10), ('class:scaled-property:left-handed-cell', 4),
                      ('class:partial-masses', 5), ('class:first-mass-missing', 3), ('class:missing-symbol', 10),
                      ('class:one-atom', 5), ('via:path', 3), ('via:fileobj', 3), ('monitor:text-scaled', 1)):
         rec.floor(name, mn)
